@@ -355,3 +355,10 @@ Definition ego_rest (ego : option Z) (ids : list key) : list key :=
   | Some x => if (0 <=? x)%Z then firstn (Z.to_nat x) ids ++ skipn (S (Z.to_nat x)) ids else ids
   | None => ids
   end.
+
+(* how many sub-calls ledger k must receive from Register/Progress/Withdraw on the asset list a *)
+Definition calls_expected (a : list asset) (reg : registry) (k : key) : nat :=
+  if kmem k (asset_keys a) && registered reg k then 1 else 0.
+(* every distinct ledger of the asset list is registered and its sub-call is scripted to succeed *)
+Definition all_ledgers_ok (a : list asset) (reg : registry) (v : hid -> bool) : Prop :=
+  forall k, In (AMulti k) a -> ledger_ok reg v k = true.
